@@ -338,6 +338,19 @@ func (g *vfGen) genC19() {
 			}
 		case 5: // no marker at all
 			var es []vfEntry
+			if g.intn(4) == 0 {
+				// a stored `mimetype` file naming an EPUB / OpenDocument type that is not the first entry (behind an
+				// ordinary file, or behind the manifest of a JAR): only the first entry identifies such a package
+				t := []string{"application/epub+zip", "application/vnd.oasis.opendocument.text", "application/vnd.oasis.opendocument.spreadsheet"}[g.intn(3)]
+				firsts := []string{"META-INF/MANIFEST.MF", "README.txt", "content.opf", "[Content_Types].xml"}
+				es2 := []vfEntry{mk(firsts[g.intn(len(firsts))])}
+				for j := 0; j < g.intn(4); j++ {
+					es2 = append(es2, mk(other[g.intn(len(other))]))
+				}
+				es2 = append(es2, vfEntry{name: "mimetype", body: []byte(t), stored: true, nodesc: g.intn(2) == 0})
+				es2 = append(es2, mk("META-INF/container.xml"))
+				emit(es2)
+			}
 			if g.intn(3) == 0 {
 				// a stored first entry without extra field whose content starts with bytes that mean something at
 				// that place to other readers of the format (the JAR extra-field id 0xCAFE, a class file, a manifest)
